@@ -111,6 +111,7 @@ func runC02(c *Ctx) {
 		{"one.F3", one, vrt.Budget{F: 3}, cutw},
 		{"N2.F2", mixed, vrt.Budget{F: 2}, cut},
 		{"one.F2.P1", one[:1], vrt.Budget{F: 2, P: 1, Total: 3}, cut},
+		{"manual.one.F2", one, vrt.Budget{F: 2}, cutw},
 	}
 	if c.Thorough() {
 		fams = []fam{
@@ -118,6 +119,8 @@ func runC02(c *Ctx) {
 			{"N2.F3", mixed, vrt.Budget{F: 3}, cut},
 			{"N3.F2", c02Workloads(3), vrt.Budget{F: 2}, cut},
 			{"one.F2.P2", one, vrt.Budget{F: 2, P: 2, Total: 4}, cut},
+			{"manual.one.F4", one, vrt.Budget{F: 4}, cutw},
+			{"manual.N2.F3", mixed, vrt.Budget{F: 3}, cut},
 		}
 	}
 	var sample *rcRun
@@ -136,7 +139,7 @@ func runC02(c *Ctx) {
 						Bound: f.bound,
 						Cfg:   vrt.Config{Horizon: int64(600 * time.Second)},
 						Body: func() {
-							rcExecuteInto(&rcCfg{Reqs: reqs, Faults: f.faults, KeepSession: true, MethodB: mb, AlwaysResub: always}, &run)
+							rcExecuteInto(&rcCfg{Reqs: reqs, Faults: f.faults, KeepSession: true, MethodB: mb, AlwaysResub: always, Manual: strings.HasPrefix(f.name, "manual.")}, &run)
 							c02Oracle(run)
 						},
 						Observe: func() uint64 { return run.net.TraceHash() },
@@ -256,6 +259,7 @@ func runC03(c *Ctx) {
 		{"N2.F1.all", 2, []string{"p0", "p1", "p2", "sub"}, []byte{'B', 'N', 'H'}, vrt.Budget{F: 1}, cut},
 		{"N3.F1", 3, []string{"p1", "p2", "sub"}, []byte{'B', 'N'}, vrt.Budget{F: 1}, cl},
 		{"N3.F2.pub", 3, []string{"p1"}, []byte{'N'}, vrt.Budget{F: 2}, cl},
+		{"manual.N2.F1", 2, []string{"p1", "p2", "sub"}, []byte{'B', 'N'}, vrt.Budget{F: 1}, cut},
 	}
 	if c.Thorough() {
 		fams = []fam{
@@ -263,6 +267,8 @@ func runC03(c *Ctx) {
 			{"N3.F2", 3, []string{"p0", "p1", "p2", "sub"}, []byte{'B', 'N', 'H'}, vrt.Budget{F: 2}, cl},
 			{"N3.F3.pub", 3, []string{"p1", "p2"}, []byte{'N'}, vrt.Budget{F: 3}, cl},
 			{"N2.F1.P2", 2, []string{"p1", "p2", "sub"}, []byte{'B', 'N'}, vrt.Budget{F: 1, P: 2, S: 1, Total: 3}, cl},
+			{"manual.N2.F2", 2, []string{"p0", "p1", "p2", "sub"}, []byte{'B', 'S', 'N', 'O'}, vrt.Budget{F: 2}, cut},
+			{"manual.N3.F1", 3, []string{"p1", "p2", "sub"}, []byte{'B', 'N'}, vrt.Budget{F: 1}, cl},
 		}
 	}
 	var sample *rcRun
@@ -274,7 +280,7 @@ func runC03(c *Ctx) {
 				continue
 			}
 			for _, sess := range rcSessionModes {
-				if sess.name != "kept" && !(f.name == "N2.F2" || f.name == "N2.F2.all") {
+				if sess.name != "kept" && !(f.name == "N2.F2" || f.name == "N2.F2.all" || f.name == "manual.N2.F2") {
 					continue
 				}
 				reqs, f, sess := reqs, f, sess
@@ -284,7 +290,7 @@ func runC03(c *Ctx) {
 					Bound: f.bound,
 					Cfg:   vrt.Config{Horizon: int64(600 * time.Second)},
 					Body: func() {
-						rcExecuteInto(&rcCfg{Reqs: reqs, Faults: f.faults, KeepSession: sess.keep, AlwaysResub: sess.always}, &run)
+						rcExecuteInto(&rcCfg{Reqs: reqs, Faults: f.faults, KeepSession: sess.keep, AlwaysResub: sess.always, Manual: strings.HasPrefix(f.name, "manual.")}, &run)
 						c03Oracle(run)
 					},
 					Observe: func() uint64 { return run.net.TraceHash() },
@@ -373,9 +379,12 @@ func runC12(c *Ctx) {
 	fams := []fam{
 		{"one.F3", one, vrt.Budget{F: 3}, cut},
 		{"N2.F2", two, vrt.Budget{F: 2}, cut},
+		{"manual.one.F2", one, vrt.Budget{F: 2}, cut},
 	}
 	if c.Thorough() {
 		fams = []fam{
+			{"manual.one.F3", one, vrt.Budget{F: 3}, cut},
+			{"manual.N2.F2", two, vrt.Budget{F: 2}, cut},
 			{"one.F4", one, vrt.Budget{F: 4}, cut},
 			{"N2.F3", two, vrt.Budget{F: 3}, cut},
 			{"N3.F2", rcWorkloads(3, []string{"p0", "p1", "p2"}, []byte{'S', 'N'}), vrt.Budget{F: 2}, cut},
@@ -396,7 +405,7 @@ func runC12(c *Ctx) {
 					Bound: f.bound,
 					Cfg:   vrt.Config{Horizon: int64(600 * time.Second)},
 					Body: func() {
-						rcExecuteInto(&rcCfg{Reqs: reqs, Faults: f.faults, KeepSession: sess.keep, AlwaysResub: sess.always}, &run)
+						rcExecuteInto(&rcCfg{Reqs: reqs, Faults: f.faults, KeepSession: sess.keep, AlwaysResub: sess.always, Manual: strings.HasPrefix(f.name, "manual.")}, &run)
 						if run.connectOK {
 							c12Oracle(run.net, func(k string) string { return k + ":faults=" + run.faultKinds() }, run.summary)
 						}
